@@ -1,6 +1,7 @@
 """Runs set_maskbits / sdss_flagval / sdss_flagname / sdss_flagexist of the repository under test.
 
-stdin : {"files": [{"path": <maskbits .par file>, "calls": [call, ...]}, ...]}
+stdin : {"files": [{"path": <maskbits .par file>, "text": <contents, written to path just before the load;
+                     the same path may occur several times with different contents>, "calls": [call, ...]}, ...]}
 stdout: {"pydl_file": ..., "files": [{"rows": [[flag, bit, label], ...], "aliases": [[flag, alias], ...],
                                         "load": {"ok": true} | {"err": cls, "msg": ...},
                                         "keys": [...], "results": [result, ...]}, ...]}
@@ -13,7 +14,9 @@ result: {"val": int, "type": ...} | {"names": [str, ...]} | {"bools": [..]} | {"
 The rows are what the real raw yanny reader returns for the file (the same reader set_maskbits uses).
 """
 import json
+import os
 import sys
+import time
 import warnings
 
 import numpy as np
@@ -27,8 +30,16 @@ def err(e):
     return {'err': type(e).__name__, 'msg': str(e)[:160]}
 
 
+MUTATED = []
+
+
 def bitarg(c):
-    return c['label'] if 'label' in c else list(c['labels'])
+    """the caller-owned argument; a list is remembered so that it can be checked unmodified after the call"""
+    if 'label' in c:
+        return c['label']
+    arg = list(c['labels'])
+    MUTATED.append((arg, list(arg)))
+    return arg
 
 
 def as_val(r):
@@ -46,6 +57,14 @@ def as_names(r, concat=False):
 
 
 def run_call(c):
+    del MUTATED[:]
+    r = run_call_(c)
+    if any(a != b for a, b in MUTATED):
+        r = dict(r, mutated_argument=[[a, b] for a, b in MUTATED if a != b][0])
+    return r
+
+
+def run_call_(c):
     k = c['k']
     try:
         if k == 'val':
@@ -83,8 +102,19 @@ def run_call(c):
         return err(e)
 
 
+STEP = [0]
+
+
 def run_file(f):
     out = {'rows': None, 'aliases': None, 'results': []}
+    if 'text' in f:
+        # (re)write the file now: the same path may have been loaded before with other contents
+        os.makedirs(os.path.dirname(f['path']), exist_ok=True)
+        with open(f['path'], 'w') as fh:
+            fh.write(f['text'])
+        STEP[0] += 1
+        t = time.time() + 3 * STEP[0]          # a rewritten file also has a visibly newer modification time
+        os.utime(f['path'], (t, t))
     try:
         y = yanny(f['path'], raw=True)
         mb = y['MASKBITS'] if 'MASKBITS' in y else {'flag': [], 'bit': [], 'label': []}
